@@ -410,18 +410,30 @@ func diagnose(c *lib.Ctx, dir string, rs []*race) error {
 		}
 		cands[d.Race] = append(cands[d.Race], k)
 	}
-	hw := 0
-	for _, t := range res.Tagged("HW") {
-		if n, ok := t[0].(int64); ok {
-			hw = int(n)
+	rhw := map[int]int{} // race -> index (1-based, in the concatenation) of the first event no explanation consumes
+	for _, t := range res.Tagged("RHW") {
+		if len(t) == 2 {
+			i, ok1 := t[0].(int64)
+			h, ok2 := t[1].(int64)
+			if ok1 && ok2 {
+				rhw[int(i)] = int(h)
+			}
 		}
 	}
-	_ = hw
+	off := 0
 	for i, r := range rs {
 		rc := map[string]any{"mode": "V", "events": r.evs}
 		cs := cands[i+1]
+		start := off
+		off += len(r.evs)
 		if len(cs) == 0 {
-			c.Reject("activation:trace-rejected", fmt.Sprintf("recorded events of real shells/daemons are not a behaviour of the activation protocol (init %s, %d events; replay the stored case for the first unmatched event)", r.evs[0].P, len(r.evs)), rc)
+			matched := rhw[i+1] - 1 - start
+			next := "(unknown)"
+			if matched >= 0 && matched < len(r.evs) {
+				b, _ := json.Marshal(r.evs[matched])
+				next = string(b)
+			}
+			c.Reject("activation:trace-rejected", fmt.Sprintf("recorded events of real shells/daemons are not a behaviour of the activation protocol: init %s, matched %d of %d events, first unmatched %s", r.evs[0].P, matched, len(r.evs), next), rc)
 			continue
 		}
 		// every explanation of the race runs into a violation; report the one that gets furthest (ties: by key)
